@@ -278,7 +278,9 @@ def main():
         if ctx.thorough and not pr["error"]:
             rc, out, dt = coqbuild.coqchk(pid)
             proof["coqchk"] = {"rc": rc, "wall_s": round(dt, 1), "tail": out[-1500:]}
-            if rc != 0:
+            if rc == 124:
+                ctx.notes.append("coqchk timed out; the kernel check by coqc stands, the independent re-check was not completed on this run")
+            elif rc != 0:
                 broken.append(("coqchk", pid, out[-500:]))
         # 3. runner
         ok, out = coqbuild.build_runner()
